@@ -41,6 +41,10 @@ type Case28 struct {
 	Skip bool     `json:"skip"` // the client runs with InsecureSkipVerify
 	RwH  int      `json:"rwh"`  // scripted-peer rewrite of the TLS 1.2 ServerKeyExchange SignatureAndHashAlgorithm in flight:
 	RwS  int      `json:"rws"`  // hash byte / signature byte (0/0 = untouched)
+	// Late: client options that alter the ClientHello after it has been built: "" none, "ticket"
+	// ForceSessionTicketExt, "sct" SignedCertificateTimestampExt, "ticket+sct" both, "ticket-disabled"
+	// ForceSessionTicketExt with SessionTicketsDisabled; each with (c.tickets) and without a session cache
+	Late string `json:"late"`
 }
 
 type Rec struct {
@@ -57,6 +61,7 @@ type Rec struct {
 	Skip   bool           `json:"skip"`
 	RwH    int            `json:"rwh"`
 	RwS    int            `json:"rws"`
+	Late   string         `json:"late"`
 	Wire   map[string]any `json:"wire"`
 	Log    map[string]any `json:"log"`
 	JSONOK bool           `json:"json_ok"` // the log marshals to JSON and the JSON agrees with the structure on the probed fields
@@ -731,6 +736,19 @@ func runCase(cs Case28) []Rec {
 	}
 	kl := &keylog{}
 	b.Server.KeyLogWriter = kl
+	switch cs.Late {
+	case "":
+	case "ticket":
+		b.Client.ForceSessionTicketExt = true
+	case "sct":
+		b.Client.SignedCertificateTimestampExt = true
+	case "ticket+sct":
+		b.Client.ForceSessionTicketExt, b.Client.SignedCertificateTimestampExt = true, true
+	case "ticket-disabled":
+		b.Client.ForceSessionTicketExt, b.Client.SessionTicketsDisabled = true, true
+	default:
+		obs.Fatal("case %d: unknown late ClientHello option %q", cs.ID, cs.Late)
+	}
 	for _, c := range cs.SCTs {
 		b.Server.Certificates[0].SignedCertificateTimestamps = append(b.Server.Certificates[0].SignedCertificateTimestamps, sctBytes(c))
 	}
@@ -784,7 +802,7 @@ func runCase(cs Case28) []Rec {
 		w, l, jok := project(r, kl, cs.S.Key)
 		o := tlsh.Observe(r)
 		out = append(out, Rec{ID: cs.ID, C: cs.C, S: cs.S, Second: k == 1, Done: r.C.Done && r.S.Done, Vers: o.CVers,
-			Suite: o.CSuite, Res: o.CRes, Rw: rewritten, SCTs: cs.SCTs, Skip: cs.Skip, RwH: cs.RwH, RwS: cs.RwS, Wire: w, Log: l, JSONOK: jok, CErr: o.CErr})
+			Suite: o.CSuite, Res: o.CRes, Rw: rewritten, SCTs: cs.SCTs, Skip: cs.Skip, RwH: cs.RwH, RwS: cs.RwS, Late: cs.Late, Wire: w, Log: l, JSONOK: jok, CErr: o.CErr})
 		r.C.Conn.Close()
 		r.S.Conn.Close()
 		r.Link.CloseAll()
@@ -809,6 +827,7 @@ func randomCase(r *rand.Rand, id int) Case28 {
 			cs.SCTs = append(cs.SCTs, classes[r.Intn(len(classes))])
 		}
 	}
+	cs.Late = []string{"", "", "", "ticket", "sct", "ticket+sct", "ticket-disabled"}[r.Intn(7)]
 	cs.Skip = r.Intn(4) == 0
 	if cs.Skip && r.Intn(2) == 0 {
 		cs.RwH, cs.RwS = []int{1, 2, 4, 5, 6, 9}[r.Intn(6)], []int{1, 2, 3, 9}[r.Intn(4)]
